@@ -398,11 +398,17 @@ func VerifC04_BadManufacturerKey() {
 
 // an honest voucher: header MACed by the device, n entries signed by the right keys
 func vwHonestVoucher(mk int, mfgKey *verif.ModelSigner, n int, secret []byte) (*Voucher, []*verif.ModelSigner) {
+	var dev *verif.ModelSigner
+	return vwHonestVoucherDev(mk, mfgKey, n, secret, &dev)
+}
+
+func vwHonestVoucherDev(mk int, mfgKey *verif.ModelSigner, n int, secret []byte, devOut **verif.ModelSigner) (*Voucher, []*verif.ModelSigner) {
 	var v Voucher
 	v.Version = 101
 	var guid protocol.GUID
 	copy(guid[:], verif.Bytes("guid", 16))
 	devPub := vcPub(mk, "dev")
+	*devOut = &verif.ModelSigner{Pub: devPub}
 	devCert := verif.NewCert(devPub, verif.Bytes("serial", 4))
 	chain := []*cbor.X509Certificate{(*cbor.X509Certificate)(devCert)}
 	v.CertChain = &chain
